@@ -12,7 +12,7 @@ from fractions import Fraction
 
 from .. import astq, nf
 from ..errors import AnalysisError
-from ..interp import Cat, Hooks, Interp, Intrinsic, Obj, SimRaise
+from ..interp import Cat, Hooks, Interp, Intrinsic, Obj, Opaque, SimRaise
 from ..nf import Rat
 
 BASE_SOLVER = "torchsde/_core/base_solver.py"
@@ -305,6 +305,16 @@ def loop_structure(model):
     return fi, body[:fors[0]], f, f.body[0], f.body[1:], body[fors[0] + 1:]
 
 
+SDE_METHODS = ("f", "g", "f_and_g", "g_prod", "f_and_g_prod", "prod", "g_prod_and_gdg_prod", "dg_ga_jvp_column_sum",
+               "gdg_prod")
+
+
+def opaque_call(name):
+    """An uninterpreted function of its tensor / scalar arguments."""
+    return Intrinsic(name, lambda it, args, kwargs, node, fi: nf.fn(
+        name, *[a for a in list(args) + [kwargs[k] for k in sorted(kwargs)] if isinstance(a, (Rat, Fraction, int))]))
+
+
 def make_self(model, adaptive, step_log):
     cls = model.cls(BASE_SOLVER, "BaseSDESolver")
 
@@ -318,7 +328,13 @@ def make_self(model, adaptive, step_log):
         return (nf.fn("STEP_Y", ta, tb, y, ekey), nf.fn("STEP_E", ta, tb, y, ekey))
     attrs = {"dt": nf.sym("self.dt", True), "adaptive": adaptive, "rtol": nf.sym("self.rtol", True),
              "atol": nf.sym("self.atol", True), "dt_min": nf.sym("self.dt_min", True),
-             "step": Intrinsic("self.step", step)}
+             "step": Intrinsic("self.step", step),
+             # the Brownian motion and the SDE are opaque to the driver: a driver that calls them (dense output, an extra
+             # evaluation) gets uninterpreted values, which the rules then meet in the carried state or in the outputs;
+             # the declared types are left unknown, so a test on them is a case split of its own
+             "bm": opaque_call("BM"), "sde": Obj("sde", attrs=dict({m: opaque_call("SDE." + m) for m in SDE_METHODS},
+                                                           noise_type=Opaque("declared noise type"),
+                                                           sde_type=Opaque("declared sde type")))}
     return Obj("solver", cls=cls, attrs=attrs)
 
 
